@@ -1,8 +1,10 @@
 #!/bin/sh
 # run every registered check of a tier on the current tree, one after the other; summary on stdout
 tier="${1:-quick}"
+[ $# -gt 0 ] && shift
+ids="${*:-C01 C02 C03 C04 C05 C06 C07 C08 C09 C10 C11 C12 C13 C14 C15 C16}"
 cd "$(dirname "$0")/.."
-for id in C01 C02 C03 C04 C05 C06 C07 C08 C09 C10 C11 C12 C13 C14 C15 C16; do
+for id in $ids; do
   s=$(date +%s)
   ./check $id --tier $tier > /tmp/run_all.$id.log 2>&1; rc=$?
   e=$(date +%s)
